@@ -23,10 +23,12 @@ TLC_JOBS = {
     # (spec module, cfg, workers, simulate, depth)
     "quick": [("ConstExprMC", "ConstExpr_quick", 8, None, None),
               ("ConstExprMC", "ConstExpr_edge", 2, None, None),
+              ("ConstExprMC", "ConstExpr_typed", 2, None, None),
               ("NumLexMC", "NumLex_quick", 2, None, None),
               ("ConstExprEnvMC", "ConstExprEnv_quick", 6, None, None)],
     "thorough": [("ConstExprMC", "ConstExpr_thorough", 8, None, None),
                  ("ConstExprMC", "ConstExpr_edge", 2, None, None),
+                 ("ConstExprMC", "ConstExpr_typed_thorough", 4, None, None),
                  ("ConstExprMC", "ConstExpr_sim", 4, 8000, 9),
                  ("NumLexMC", "NumLex_thorough", 4, None, None),
                  ("ConstExprEnvMC", "ConstExprEnv_thorough", 8, None, None)],
@@ -96,36 +98,52 @@ def tree_ops(t, acc=None):
     return acc
 
 
+def item(form, name, val, enum=None, mu=False, noval=False):
+    """One recorded constant the check looks at.  form E (enumerator `name` of enum `enum`), M (manifest),
+    A (array element).  val: the value the spec carries, or None = `the value the compiler computes`
+    (taken from the g++ oracle).  mu: may be reported as unevaluated.  noval: there is no value, must be
+    reported as unevaluated."""
+    return dict(form=form, name=name, val=val, enum=enum, mu=mu, noval=noval)
+
+
 def expr_case(cid, rec):
     """One enumerated tree -> enumerator (minimal parentheses), macro (minimal, other spellings; every
     third case fully parenthesised), array bound (positive values; alternately full / minimal)."""
     t, d, v = rec["t"], rec["d"], rec["v"]
-    c = dict(id=cid, kind="expr", tree=t, d=d, v=v, lines=[], expect=[], classes=[],
-             uneval_ok=has_node(t, "cast", "char"), oracle=(d == "ok"))
+    c = dict(id=cid, kind="expr", tree=t, d=d, v=v, lines=[], items=[], classes=[],
+             uneval_ok=has_node(t, "cast", "char"), oracle=(d in ("ok", "uns", "big")))
+    mu = c["uneval_ok"]
 
     def text(off, full=False, spaced=False, refs=REFS):
-        sp = X.respell(t, lambda val, i: X.spell_value(val, cid * 7 + i * 3 + off, refs))
+        sp = X.respell(t, lambda val, i: X.spell_value(val, cid * 7 + i * 3 + off, refs, pp=(refs is REFS_PP)))
         return X.join(X.toks_full(sp) if full else X.toks_min(sp), spaced=spaced)
     if d == "ok":
         c["lines"].append("enum E_%d { V_%d = %s };" % (cid, cid, text(0)))
-        c["expect"].append(("E", "E_%d" % cid, [["V_%d" % cid, v]]))
+        c["items"].append(item("E", "V_%d" % cid, v, enum="E_%d" % cid, mu=mu))
         c["lines"].append("#define M_%d %s" % (cid, text(1, full=(cid % 3 == 0), spaced=(cid % 5 == 0))))
-        c["expect"].append(("M", "M_%d" % cid, v))
+        c["items"].append(item("M", "M_%d" % cid, v, mu=mu))
         if v > 0:
             c["lines"].append("extern char a_%d[%s];" % (cid, text(2, full=(cid % 2 == 0))))
-            c["expect"].append(("A", "a_%d" % cid, v))
-        if not has_node(t, "cast"):
-            # a cast is not a preprocessor expression
+            c["items"].append(item("A", "a_%d" % cid, v, mu=mu))
+        if not has_node(t, "cast") and not has_node(t, "ulit") and not has_node(t, "big"):
+            # a cast is not a preprocessor expression; unsigned / wide literals are 64 bit there
             c["lines"] += if_lines(cid, text(3, refs=REFS_PP), v)
-            c["expect"].append(("M", "I_%d" % cid, 1))
-    else:
-        # a zero divisor is evaluated: `#define M (1/0)` is a valid program, the macro has no value.
-        # interrogate treats what it cannot evaluate as "unknown" and lets `unknown && 0`, `unknown || 1`
-        # be 0 / 1; for an operand WITHOUT a value that is neither right nor a wrong number (no compiler
-        # computes one), so under && / || only normal termination is demanded.
+            c["items"].append(item("M", "I_%d" % cid, 1))
+    elif d in ("div0", "ovf"):
+        # a zero divisor is evaluated / + - * leave the int range: `#define M (1/0)` is a valid program, the
+        # macro has no value.  interrogate treats what it cannot evaluate as "unknown" and lets
+        # `unknown && 0`, `unknown || 1` be 0 / 1; for an operand WITHOUT a value that is neither right nor
+        # a wrong number (no compiler computes one), so under && / || only normal termination is demanded.
         c["lines"].append("#define M_%d %s" % (cid, text(1)))
-        c["expect"].append(("M", "M_%d" % cid, None))
+        c["items"].append(item("M", "M_%d" % cid, None, noval=True))
         c["any_value_ok"] = has_node(t, "bin", "&&") or has_node(t, "bin", "||")
+    else:
+        # "uns" / "big": unsigned arithmetic that wraps, or a literal >= 2^31, is evaluated.  Outside the
+        # value claim; the database must say `unevaluated` or exactly what the compiler computes.
+        c["lines"].append("#define M_%d %s" % (cid, text(1)))
+        c["items"].append(item("M", "M_%d" % cid, None, mu=True))
+        if d == "uns":
+            c["classes"] = ["C07-unsigned-arithmetic"]
     c["text"] = X.join(X.toks_min(t))
     return c
 
@@ -133,22 +151,27 @@ def expr_case(cid, rec):
 def lit_case(cid, rec):
     s = "".join(map(chr, rec["cs"]))
     v = rec["v"]
-    unsigned = "u" in rec["s"].lower()
-    c = dict(id=cid, kind="lit", text=s, v=v, d="ok", lines=[], expect=[], classes=[], uneval_ok=False, oracle=True)
+    unsigned = "u" in rec["s"].lower() or rec.get("p") == "U"
+    c = dict(id=cid, kind="lit", text=s, v=v, d="ok", lines=[], items=[], classes=[], uneval_ok=False, oracle=True)
     c["lines"].append("enum E_%d { V_%d = %s };" % (cid, cid, s))
-    c["expect"].append(("E", "E_%d" % cid, [["V_%d" % cid, v]]))
+    c["items"].append(item("E", "V_%d" % cid, v, enum="E_%d" % cid))
     c["lines"].append("#define M_%d %s" % (cid, s))
-    c["expect"].append(("M", "M_%d" % cid, v))
+    c["items"].append(item("M", "M_%d" % cid, v))
     if 0 < v:
         c["lines"].append("extern char a_%d[%s];" % (cid, s))
-        c["expect"].append(("A", "a_%d" % cid, v))
+        c["items"].append(item("A", "a_%d" % cid, v))
     c["lines"] += if_lines(cid, s, v)
-    c["expect"].append(("M", "I_%d" % cid, 1))
+    c["items"].append(item("M", "I_%d" % cid, 1))
     if not unsigned and v < X.INT_MAX:
         # the literal as an operand: next to an operator on both sides
         c["lines"].append("enum F_%d { W_%d = 1+%s -1, U_%d };" % (cid, cid, s, cid))
-        c["expect"].append(("E", "F_%d" % cid, [["W_%d" % cid, v], ["U_%d" % cid, v + 1]]))
+        c["items"].append(item("E", "W_%d" % cid, v, enum="F_%d" % cid))
+        c["items"].append(item("E", "U_%d" % cid, v + 1, enum="F_%d" % cid))
     return c
+
+
+OPEN_TEXT = {"open": "enum %s", "openC": "enum class %s", "openU": "enum %s : unsigned char",
+             "openCS": "enum class %s : short"}
 
 
 def env_case(cid, rec):
@@ -156,21 +179,42 @@ def env_case(cid, rec):
     p = rec["p"]
     name = lambda i: "D%d_%d" % (cid, i)
     lit = lambda v: str(v)
+    # the enum every enumerator belongs to
+    owner, cur_o, ne = {}, None, 0
+    for i, dcl in enumerate(p, 1):
+        if dcl["k"] in OPEN_TEXT:
+            ne += 1
+            cur_o = ("EN%d_%d" % (cid, ne), dcl["k"])
+        elif dcl["k"] == "close":
+            cur_o = None
+        elif dcl["k"] in ("enumE", "enumI"):
+            owner[i] = cur_o
 
-    def expr(e):
+    def ref(i, user):
+        """how declaration `user` names declaration i"""
+        if i not in owner or owner.get(user) == owner[i]:
+            return name(i)
+        en, kind = owner[i]
+        if kind in ("openC", "openCS"):
+            return "(int)%s::%s" % (en, name(i))          # a scoped enumerator does not convert by itself
+        return "%s::%s" % (en, name(i)) if (cid + i) % 2 else name(i)
+
+    def expr(e, user=0):
         k = e[0]
         if k == "lit":
             return lit(e[1])
+        if k == "cc":
+            return "(char)" + lit(e[1])
         if k == "ref":
-            return name(e[1])
+            return ref(e[1], user)
         if k == "neg":
-            return "-" + name(e[1])
+            return "-" + ref(e[1], user)
         if k == "rl":
-            return "%s %s %s" % (name(e[2]), e[1], lit(e[3]))
+            return "%s %s %s" % (ref(e[2], user), e[1], lit(e[3]))
         if k == "lr":
-            return "%s %s %s" % (lit(e[2]), e[1], name(e[3]))
-        return "%s %s %s" % (name(e[2]), e[1], name(e[3]))
-    c = dict(id=cid, kind="env", prog=p, d="ok", lines=[], expect=[], classes=[], uneval_ok=False, oracle=True)
+            return "%s %s %s" % (lit(e[2]), e[1], ref(e[3], user))
+        return "%s %s %s" % (ref(e[2], user), e[1], ref(e[3], user))
+    c = dict(id=cid, kind="env", prog=p, d="ok", lines=[], items=[], classes=[], uneval_ok=False, oracle=True)
     # input class C07-macro-sign-paste: a macro body `-X` where X is an object-like macro whose fully
     # replaced text starts with `-`
 
@@ -179,10 +223,12 @@ def env_case(cid, rec):
         if d["k"] == "macroP":
             return "("
         if d["k"] != "macroB":
-            return "n"                      # a C++ name
+            return "n"                      # a C++ name (or a cast)
         e = d["e"]
         if e[0] == "lit":
             return lit(e[1])[0]
+        if e[0] == "cc":
+            return "("
         if e[0] == "neg":
             return "-"
         if e[0] == "lr":
@@ -191,66 +237,102 @@ def env_case(cid, rec):
     for dcl in p:
         if dcl["k"] in ("macroP", "macroB") and dcl["e"] and dcl["e"][0] == "neg" and first(dcl["e"][1]) == "-":
             c["classes"] = ["C07-macro-sign-paste"]
-    cur, ne = None, 0
+    cur = None
     for i, dcl in enumerate(p, 1):
         k = dcl["k"]
-        if k == "open":
-            ne += 1
-            cur = ("EN%d_%d" % (cid, ne), [], [])
+        mu = bool(dcl.get("mu"))
+        if k in OPEN_TEXT:
+            cur = (owner_name(owner, p, i), [], k)
         elif k == "close":
-            c["lines"].append("enum %s { %s };" % (cur[0], ", ".join(cur[1])))
-            c["expect"].append(("E", cur[0], cur[2]))
+            c["lines"].append("%s { %s };" % (OPEN_TEXT[cur[2]] % cur[0], ", ".join(cur[1])))
             cur = None
         elif k == "enumE":
-            cur[1].append("%s = %s" % (name(i), expr(dcl["e"])))
-            cur[2].append([name(i), dcl["v"]])
+            cur[1].append("%s = %s" % (name(i), expr(dcl["e"], i)))
+            c["items"].append(item("E", name(i), dcl["v"], enum=cur[0], mu=mu))
         elif k == "enumI":
             cur[1].append(name(i))
-            cur[2].append([name(i), dcl["v"]])
+            c["items"].append(item("E", name(i), dcl["v"], enum=cur[0], mu=mu))
         elif k == "const":
             c["lines"].append("const int %s = %s;" % (name(i), expr(dcl["e"])))
         elif k == "constexpr":
             c["lines"].append("constexpr int %s = %s;" % (name(i), expr(dcl["e"])))
         elif k == "macroP":
             c["lines"].append("#define %s (%s)" % (name(i), expr(dcl["e"])))
-            c["expect"].append(("M", name(i), dcl["v"]))
+            c["items"].append(item("M", name(i), dcl["v"], mu=mu))
         elif k == "macroB":
             c["lines"].append("#define %s %s" % (name(i), expr(dcl["e"])))
-            c["expect"].append(("M", name(i), dcl["v"]))
+            c["items"].append(item("M", name(i), dcl["v"], mu=mu))
         elif k == "array":
             c["lines"].append("extern char %s[%s];" % (name(i), expr(dcl["e"])))
-            c["expect"].append(("A", name(i), dcl["v"]))
+            c["items"].append(item("A", name(i), dcl["v"], mu=mu))
     c["text"] = " ".join(c["lines"])
     return c
 
 
-# expressions outside the enumerated grammar: what interrogate documents it cannot (always) evaluate.
-# (declaration template, form, True: g++ computes the value | False: there is no value | the value)
-# expectation: unevaluated, or exactly that value
+def owner_name(owner, p, i):
+    """name of the enum opened by declaration i (= the owner of the enumerators that follow)"""
+    for j in range(i + 1, len(p) + 1):
+        if j in owner:
+            return owner[j][0]
+    return "ENx_%d" % i
+
+
+# declarations outside the enumerated grammar: what interrogate documents it cannot (always) evaluate.
+# (declaration template, [(form, name suffix, value)]) with value True: the one g++ computes, False: there is
+# none, an int: that value.  Expectation for these constants: unevaluated, or exactly that value.
+# An int in brackets [v] is a strict expectation (must be present and right): the enumerators AROUND one
+# that cannot be evaluated.
 HARD = [
-    ("#define {n} sizeof(int)", "M", True), ("#define {n} sizeof(long) * 2", "M", True),
-    ("#define {n} alignof(double)", "M", True), ("#define {n} (int)2.9", "M", True),
-    ("#define {n} int(7)", "M", True), ("#define {n} static_cast<int>(7) + 1", "M", True),
-    ("#define {n} (long)5 + 1", "M", True), ("#define {n} (unsigned char)7", "M", True),
-    ("#define {n} (short)70000", "M", True), ("#define {n} (unsigned short)65537", "M", True),
-    ("#define {n} (unsigned)7", "M", True), ("#define {n} (unsigned)-1", "M", True),
-    ("enum EH_{i} {{ {n} = (short)-70000 }};", "E", True), ("#define {n} (long long)-5", "M", True),
-    ("#define {n} \"abc\"[1]", "M", True), ("#define {n} not_declared_anywhere(3)", "M", False),
-    ("#define {n} 1.5 + 1", "M", False), ("#define {n} 3 +", "M", False),
+    ("#define {n} sizeof(int)", [("M", "", True)]), ("#define {n} sizeof(long) * 2", [("M", "", True)]),
+    ("#define {n} alignof(double)", [("M", "", True)]), ("#define {n} (int)2.9", [("M", "", True)]),
+    ("#define {n} int(7)", [("M", "", True)]), ("#define {n} static_cast<int>(7) + 1", [("M", "", True)]),
+    ("#define {n} (long)5 + 1", [("M", "", True)]), ("#define {n} (unsigned char)7", [("M", "", True)]),
+    ("#define {n} (short)70000", [("M", "", True)]), ("#define {n} (unsigned short)65537", [("M", "", True)]),
+    ("#define {n} (unsigned)7", [("M", "", True)]), ("#define {n} (unsigned)-1", [("M", "", True)]),
+    ("enum EH_{i} {{ {n} = (short)-70000 }};", [("E", "", True)]), ("#define {n} (long long)-5", [("M", "", True)]),
+    ("#define {n} \"abc\"[1]", [("M", "", True)]), ("#define {n} not_declared_anywhere(3)", [("M", "", False)]),
+    ("#define {n} 1.5 + 1", [("M", "", False)]), ("#define {n} 3 +", [("M", "", False)]),
     # the value does not depend on the operand interrogate cannot evaluate
-    ("int fh_{i}();\n#define {n} (fh_{i}() || 5)", "M", 1), ("int fh_{i}();\n#define {n} (fh_{i}() && 0)", "M", 0),
-    ("int fh_{i}();\n#define {n} (0 && fh_{i}())", "M", 0), ("int fh_{i}();\n#define {n} (7 || fh_{i}())", "M", 1),
-    ("enum EH_{i} {{ {n} = sizeof(int) }};", "E", True), ("enum EH_{i} {{ {n} = sizeof(char) + 1 }};", "E", True),
-    ("extern char {n}[sizeof(int)];", "A", True), ("extern char {n}[sizeof(long) * 2];", "A", True),
-    ("struct SH_{i} {{ int x; }}; extern char {n}[sizeof(SH_{i})];", "A", True),
+    ("int fh_{i}();\n#define {n} (fh_{i}() || 5)", [("M", "", 1)]), ("int fh_{i}();\n#define {n} (fh_{i}() && 0)", [("M", "", 0)]),
+    ("int fh_{i}();\n#define {n} (0 && fh_{i}())", [("M", "", 0)]), ("int fh_{i}();\n#define {n} (7 || fh_{i}())", [("M", "", 1)]),
+    ("enum EH_{i} {{ {n} = sizeof(int) }};", [("E", "", True)]), ("enum EH_{i} {{ {n} = sizeof(char) + 1 }};", [("E", "", True)]),
+    ("extern char {n}[sizeof(int)];", [("A", "", True)]), ("extern char {n}[sizeof(long) * 2];", [("A", "", True)]),
+    ("struct SH_{i} {{ int x; }}; extern char {n}[sizeof(SH_{i})];", [("A", "", True)]),
+    # an enumerator that cannot be evaluated must not take its neighbours with it
+    ("enum EH_{i} {{ {n}a = 1, {n}b = sizeof(int), {n}c, {n}d = 5, {n}e }};",
+     [("E", "a", [1]), ("E", "b", True), ("E", "c", True), ("E", "d", [5]), ("E", "e", [6])]),
+    ("enum EH_{i} : unsigned char {{ {n}a = 3, {n}b = (unsigned char)({n}a + 1), {n}c, {n}d = 9 }};",
+     [("E", "a", [3]), ("E", "b", True), ("E", "c", True), ("E", "d", [9])]),
+    ("struct TH_{i} {{ double d; }};\nenum class EH_{i} {{ {n}a, {n}b = alignof(TH_{i}), {n}c = 4, {n}d = (int){n}c * 2 }};",
+     [("E", "a", [0]), ("E", "b", True), ("E", "c", [4]), ("E", "d", [8])]),
+    # literals and arithmetic at the edge of int
+    ("#define {n} 2147483648", [("M", "", True)]), ("#define {n} 4294967295u", [("M", "", True)]),
+    ("#define {n} -2147483648", [("M", "", True)]), ("#define {n} 0xFFFFFFFF", [("M", "", True)]),
+    ("#define {n} 4294967296", [("M", "", True)]), ("#define {n} 18446744073709551615ull", [("M", "", True)]),
+    ("extern char {n}[2147483648];", [("A", "", True)]), ("#define {n} 2147483647 + 1", [("M", "", False)]),
+    ("#define {n} -2147483647 - 2", [("M", "", False)]), ("#define {n} 65536 * 65536", [("M", "", False)]),
+    ("#define {n} 65536 * 32768", [("M", "", False)]), ("#define {n} - (-2147483647 - 1)", [("M", "", False)]),
+    # character literals with an encoding prefix or a multi-digit escape
+    ("#define {n} L'\\377'", [("M", "", True)]), ("#define {n} u'\\xffff'", [("M", "", True)]),
+    ("#define {n} U'\\x10ffff'", [("M", "", True)]), ("#define {n} L'\\x7fffffff'", [("M", "", True)]),
+    ("#define {n} u8'a'", [("M", "", True)]), ("#define {n} '\\0' + '\\'' + '\\\\'", [("M", "", True)]),
+    ("#define {n} u'\\u00e9'", [("M", "", True)]), ("#define {n} U'\\U0001F600'", [("M", "", True)]),
+    ("#define {n} L'\\u20ac' + 1", [("M", "", True)]),
 ]
 
 
 def hard_case(cid, k):
-    tmpl, form, gxx = HARD[k]
+    tmpl, its = HARD[k]
     n = "H_%d" % cid
     c = dict(id=cid, kind="hard", d="hard", text=tmpl.format(n=n, i=cid), lines=[tmpl.format(n=n, i=cid)],
-             expect=[], classes=[], uneval_ok=True, oracle=(gxx is True), gxx=gxx, form=form, name=n)
+             items=[], classes=[], uneval_ok=False, oracle=True)
+    for form, sfx, val in its:
+        if isinstance(val, list):
+            c["items"].append(item(form, n + sfx, val[0], enum="EH_%d" % cid))
+        elif val is False:
+            c["items"].append(item(form, n + sfx, None, enum="EH_%d" % cid, noval=True))
+        else:
+            c["items"].append(item(form, n + sfx, None if val is True else val, enum="EH_%d" % cid, mu=True))
     return c
 
 
@@ -326,41 +408,54 @@ def oracle_program(cases, hdr):
     for c in cases:
         if not c["oracle"]:
             continue
-        if c["kind"] == "hard":
-            n = c["name"]
-            if c["form"] == "M":
+        for it in c["items"]:
+            if it["noval"]:
+                continue
+            n = it["name"]
+            if it["form"] == "E":
+                q = n
+                if c["kind"] == "hard" and "enum class" in c["text"]:
+                    q = "%s::%s" % (it["enum"], n)
+                elif c["kind"] == "env":
+                    q = "%s::%s" % (it["enum"], n)
+                body.append('printf("E %s %%lld\\n", (long long)%s);' % (n, q))
+            elif it["form"] == "M":
+                # constant evaluation is forced: an expression with undefined behaviour does not compile
                 out.append("constexpr long long cm_%s = (%s);" % (n, n))
                 body.append('printf("M %s %%lld\\n", cm_%s);' % (n, n))
-            elif c["form"] == "E":
-                body.append('printf("E %s %%lld\\n", (long long)%s);' % (n, n))
             else:
                 body.append('printf("A %s %%zu\\n", sizeof(%s));' % (n, n))
-            continue
-        for form, name, val in c["expect"]:
-            if form == "E":
-                for vn, _ in val:
-                    body.append('printf("E %s %%lld\\n", (long long)%s);' % (vn, vn))
-            elif form == "M":
-                # constant evaluation is forced: an expression with undefined behaviour does not compile
-                out.append("constexpr long long cm_%s = (%s);" % (name, name))
-                body.append('printf("M %s %%lld\\n", cm_%s);' % (name, name))
-            else:
-                body.append('printf("A %s %%zu\\n", sizeof(%s));' % (name, name))
     out.append("int main() {")
     out += body
     out.append("return 0; }")
     return "\n".join(out) + "\n"
 
 
-def run_oracle(work, cases, tag):
+def run_oracle(work, cases, tag, all_cases=None):
+    """g++ on the header of the batch.  A case outside the value claim (items whose value is `what the
+    compiler computes`) that g++ itself rejects is isolated by bisection and loses its claim; g++
+    rejecting anything the spec gives a value to is a MachineryError."""
     hdr = "%s.h" % tag
+    if all_cases is not None:
+        open(os.path.join(work, hdr), "w").write(header_text(all_cases, LEAVES))
     src = os.path.join(work, tag + "_o.cxx")
     exe = os.path.join(work, tag + "_o")
     open(src, "w").write(oracle_program(cases, hdr))
     p = subprocess.run(["g++", "-std=c++20", "-w", "-O0", "-o", exe, src], cwd=work, stdout=subprocess.PIPE,
                        stderr=subprocess.PIPE, text=True)
     if p.returncode != 0:
-        raise MachineryError("g++ rejects a header the spec calls well-formed (%s):\n%s" % (hdr, p.stderr[:1500]))
+        soft = [c for c in cases if c["oracle"] and any(it["val"] is None and not it["noval"] for it in c["items"])]
+        if not soft:
+            raise MachineryError("g++ rejects a header the spec calls well-formed (%s):\n%s" % (hdr, p.stderr[:1500]))
+        if len(cases) == 1:
+            cases[0]["oracle_rejected"] = True
+            return {}
+        # the declarations of every case stay in the header; only the constants asked for are halved
+        h = len(cases) // 2
+        full = all_cases if all_cases is not None else cases
+        vals = run_oracle(work, cases[:h], tag + "x", full)
+        vals.update(run_oracle(work, cases[h:], tag + "y", full))
+        return vals
     q = subprocess.run([exe], stdout=subprocess.PIPE, text=True)
     vals = {}
     for line in q.stdout.split("\n"):
@@ -371,66 +466,80 @@ def run_oracle(work, cases, tag):
 
 
 def check_oracle(cases, vals):
-    """spec == g++ on every constant, else MachineryError."""
+    """spec == g++ on every constant the spec gives a value to, else MachineryError."""
     n = 0
     for c in cases:
-        if not c["oracle"] or c["kind"] == "hard":
+        if not c["oracle"]:
             continue
-        for form, name, val in c["expect"]:
-            items = [(vn, vv) for vn, vv in val] if form == "E" else [(name, val)]
-            for nm, vv in items:
-                g = vals.get((form, nm))
-                n += 1
-                if g != vv:
-                    raise MachineryError("spec != g++ on `%s`: %s %s spec %r g++ %r" % (short(c), form, nm, vv, g))
+        for it in c["items"]:
+            if it["val"] is None:
+                continue
+            g = vals.get((it["form"], it["name"]))
+            n += 1
+            if g != it["val"]:
+                raise MachineryError("spec != g++ on `%s`: %s %s spec %r g++ %r" % (short(c), it["form"], it["name"], it["val"], g))
     return n
 
 
+def observed(obs, it):
+    """Projection of the database to one constant: ("value", v) | ("unevaluated",) | ("absent",)"""
+    f, n = it["form"], it["name"]
+    if f == "E":
+        lst = obs["E"].get(it["enum"])
+        if lst is None:
+            return ("absent",)
+        for nm, v in lst:
+            if nm == n:
+                return ("value", v)
+        return ("unevaluated",)          # the enum is recorded without this enumerator
+    if f == "M":
+        if n not in obs["M"]:
+            return ("absent",)
+        return ("unevaluated",) if obs["M"][n] is None else ("value", obs["M"][n])
+    if n not in obs["A"]:
+        return ("absent",)
+    return ("unevaluated",) if obs["A"][n] == -1 else ("value", obs["A"][n])
+
+
 def compare(ctx, c, obs, gvals, stats):
-    """Projection of the database to the spec's observables and comparison, one case."""
-    if c["kind"] == "hard":
-        form, n = c["form"], c["name"]
-        if form == "M":
-            got = obs["M"].get(n, "absent")
-            if got == "absent":
-                got = None
-        elif form == "E":
-            vals = [v for e in obs["E"].values() for nm, v in e if nm == n]
-            got = vals[0] if vals else None
-        else:
-            got = obs["A"].get(n)
-            if got == -1:
-                got = None
-        want = gvals.get((form, n)) if c["gxx"] is True else (None if c["gxx"] is False else c["gxx"])
-        stats["hard_unevaluated" if got is None else "hard_evaluated"] += 1
-        if got is not None and got != want:
-            ctx.violation("`%s`: interrogate cannot evaluate this reliably and must report it as unevaluated or "
-                          "record the compiler's value %s, but records %s" % (short(c), want, got),
-                          payload(c, want, got), classes=c["classes"])
-        return
-    for form, name, val in c["expect"]:
-        if form == "E":
-            got = obs["E"].get(name)
-            ok = got == val
-            uneval = got is not None and len(got) < len(val) and got == val[:len(got)]
-        elif form == "M":
-            got = obs["M"].get(name, "absent")
-            ok = got == val
-            uneval = got is None
-        else:
-            got = obs["A"].get(name, "absent")
-            ok = got == val
-            uneval = got == -1
+    """Comparison of one case with what the database records."""
+    enums = {}
+    for it in c["items"]:
+        got = observed(obs, it)
         stats["compared"] += 1
-        if ok or c.get("any_value_ok"):
+        if it["form"] == "E":
+            enums.setdefault(it["enum"], []).append(it["name"])
+        want = it["val"]
+        if want is None and not it["noval"]:
+            if c.get("oracle_rejected"):
+                stats["oracle_rejected"] += 1
+                continue
+            want = gvals.get((it["form"], it["name"]))
+        if c["kind"] == "hard":
+            stats["hard_unevaluated" if got[0] != "value" else "hard_evaluated"] += 1
+        if it["noval"]:
+            if got[0] == "unevaluated" or c.get("any_value_ok"):
+                continue
+            ctx.violation("`%s` [%s %s]: has no value and must be reported as unevaluated, but is %s" % (
+                short(c), it["form"], it["name"], "recorded as %s" % got[1] if got[0] == "value" else got[0]),
+                payload(c, None, got), classes=c["classes"])
             continue
-        if uneval and c["uneval_ok"]:
+        if got == ("value", want):
+            continue
+        if got[0] == "unevaluated" and (it["mu"] or c["uneval_ok"]):
             stats["unevaluated_allowed"] += 1
             continue
-        what = "reported as unevaluated" if uneval else "recorded as %s" % (got,)
-        want = "must be reported as unevaluated (no value)" if val is None else "value %s" % (val,)
-        ctx.violation("`%s` [%s %s]: %s, %s" % (short(c), form, name, want, what),
-                      payload(c, val, got), classes=c["classes"])
+        what = {"value": "recorded as %s" % (got[-1],), "unevaluated": "reported as unevaluated",
+                "absent": "not in the database at all"}[got[0]]
+        ctx.violation("`%s` [%s %s]: value %s%s, %s" % (
+            short(c), it["form"], it["name"], want, " (or unevaluated)" if it["mu"] else "", what),
+            payload(c, want, got), classes=c["classes"])
+    # the recorded enumerators are the declared ones, in declaration order, nothing else
+    for en, names in enums.items():
+        rec = [nm for nm, v in obs["E"].get(en, [])]
+        if [n for n in names if n in rec] != rec:
+            ctx.violation("`%s` [E %s]: the recorded enumerators %s are not a subsequence of the declared %s" % (
+                short(c), en, rec, names), payload(c, names, rec), classes=c["classes"])
 
 
 # ----------------------------------------------------------------------------------------------
@@ -479,11 +588,11 @@ def run_check(ctx):
             s = "".join(map(chr, rec["cs"]))
             lits[s] = rec
             got = X.lex_literal(s)
-            if got is None or got[0] != rec["k"] or got[1] != rec["v"] or got[3] != rec["s"]:
+            if got is None or (got[0], got[1], got[3], got[4]) != (rec["k"], rec["v"], rec["s"], rec["p"]):
                 raise MachineryError("vf/constexpr.py lex_literal disagrees with NumLex.tla on %r: %r vs %r" % (s, got, rec))
     # every spelling the renderer may choose is a literal of that value by the NumLex rules
     for v in LEAVES:
-        for s in X.int_spellings(abs(v), unsigned=True) + X.CHAR_SPELL.get(abs(v), []):
+        for s in X.int_spellings(abs(v), unsigned=True) + X.char_spellings(abs(v)):
             g = X.lex_literal(s)
             if g is None or g[1] != abs(v):
                 raise MachineryError("spelling %r of %d is not accepted by the NumLex mirror" % (s, abs(v)))
@@ -504,6 +613,8 @@ def run_check(ctx):
     for key, rec in trees:
         cid += 1
         cases.append(expr_case(cid, rec))
+    # the expressions outside the value claim go into batches of their own (their oracle may need bisection)
+    cases.sort(key=lambda c: c["d"] in ("uns", "big"))
     n_expr = len(cases)
     for s in sorted(lits):
         cid += 1
@@ -520,7 +631,8 @@ def run_check(ctx):
     # ---- replay ------------------------------------------------------------------------------
     rn = Runner(ctx)
     batches = [cases[i:i + BATCH] for i in range(0, len(cases), BATCH)]
-    stats = dict(compared=0, unevaluated_allowed=0, hard_unevaluated=0, hard_evaluated=0, oracle_constants=0)
+    stats = dict(compared=0, unevaluated_allowed=0, hard_unevaluated=0, hard_evaluated=0, oracle_constants=0,
+                 oracle_rejected=0)
 
     def one(ib):
         i, b = ib
@@ -543,7 +655,7 @@ def run_check(ctx):
                     nontrivial.add(json.dumps(c["tree"]))
                 elif c["kind"] == "lit" and not c["text"].isdigit():
                     nontrivial.add(c["text"])
-                elif c["kind"] == "env" and any(d["k"] != "open" and d["e"] and d["e"][0] != "lit" for d in c["prog"]):
+                elif c["kind"] == "env" and any(d["e"] and d["e"][0] != "lit" for d in c["prog"]):
                     nontrivial.add(json.dumps(c["prog"]))
     ctx.cov["evaluations"] += stats["compared"]
     ctx.cov["distinct_nontrivial"] = len(nontrivial)
@@ -562,9 +674,10 @@ def run_check(ctx):
                           operators_covered=sorted(ops), unevaluated_allowed_why=UNEVAL_OK_WHY, **stats))
     step = max(1, len(cases) // 5)
     for c in cases[::step][:5]:
-        ctx.sample(dict(kind=c["kind"], declarations=c["lines"], expected=c["expect"]))
+        ctx.sample(dict(kind=c["kind"], declarations=c["lines"],
+                        expected=[[it["form"], it["name"], it["val"]] for it in c["items"]]))
     ctx.assumptions.append("int is 32 bit two's complement, char is signed 8 bit, >> of a negative value is arithmetic "
-                           "(C++20): the platform of the oracle compiler; unsigned-suffixed literals only stand alone")
+                           "(C++20), wchar_t / char16_t / char32_t literals are code units: the platform of the oracle compiler")
 
 
 def replay(path):
